@@ -27,7 +27,7 @@ def entry_set(F, CG):
         tr = f.j.get("trait") or ""
         if tr in ("revm::Database", "revm::DatabaseCommit") or tr.endswith("PrecompileProvider"):
             roots.add(f.id)
-        if tr in ("serde::Deserialize", "serde::de::Visitor", "std::str::FromStr") or tr.endswith("ValidateRequest") or tr.endswith("RpcServiceT"):
+        if tr.endswith("::Deserialize") or tr.endswith("de::Visitor") or tr == "std::str::FromStr" or tr.endswith("ValidateRequest") or tr.endswith("RpcServiceT"):
             roots.add(f.id)
     return roots
 
